@@ -5,6 +5,8 @@
   run equals the output of that file processed alone.
 -/
 import Verif.Lemmas.History
+import Verif.Model.RuleTable
+import Verif.Gen.RuleFields
 namespace Verif.Props.C13
 open Verif.Model.Engine
 variable {τ : Type}
@@ -62,5 +64,26 @@ theorem reset_needed_witness :
     (scanFile [leakyRule] ((⟨(1 : Nat), []⟩ : Comp leakyRule), ()) ⟨some [], ["x"], Pragmas.none⟩).2.printed.length := by
   simp [scanFile, dispatch, stepOne, runEvents, bodyEvents, lineEvents, leakyRule, Rule.handles, Rule.call,
     printed, sortReps, Acc.empty, Pragmas.suppressed, Pragmas.none]
+
+end Verif.Props.C13
+
+/-! ### Code side: the reset table regenerated from the rule sources -/
+namespace Verif.Props.C13
+open Verif.Model.RuleTable Verif.Gen.RuleFields
+
+/-- The (rule, field) pairs that are written during a file but not re-assigned by
+`starting_new_file` are exactly the reviewed baseline — every other state field of every rule is
+reset at the start of each file. -/
+theorem exceptions_pinned : unresetPairs rows = Baseline.resetExceptions := by decide +kernel
+
+/-- No `starting_new_file` computes its reset from leftover state (every reset is a constant reset). -/
+theorem reset_rhs_const : (rows.flatMap (·.resetNonConst)) = [] := by decide +kernel
+
+/-- A rule that does not override `starting_new_file` keeps no per-file state at all. -/
+theorem no_start_no_state : (rows.filter fun r => isRule r && !r.hasStart && !r.written.isEmpty).map (·.id) = [] := by
+  decide +kernel
+
+/-- All 46+ rule classes are in the table (a rule file the translator cannot read is an error). -/
+theorem table_covers_rules : 46 ≤ (rows.filter isRule).length := by decide +kernel
 
 end Verif.Props.C13
